@@ -32,6 +32,10 @@ type c11Scenario struct {
 	// observe, if set, renders the quiescent outcome (response codes + final state); the explored outcome must be one
 	// that some sequential order of the same requests produces on the same code
 	observe func(w *c11World) string
+	// quietGate: the requests hand work to worker-pool goroutines that were started before the run (labelmap block
+	// mutation handlers); the scheduler then decides "parked on a channel" from goroutine states and lets those
+	// goroutines finish between two controlled steps (see vsync.Quiet)
+	quietGate bool
 }
 
 func c11KVWorld() (*c11World, error) {
@@ -666,6 +670,94 @@ func c11Scenarios() []c11Scenario {
 			}
 			if acked(w.resp[0]) && acked(w.resp[1]) && l0 == l1 {
 				bad = append(bad, fmt.Sprintf("same-new-label\ttwo acknowledged cleaves were given the same new body id %d", l0))
+			}
+			return
+		})})
+	// S4d: a supervoxel split against a cleave of another supervoxel of the same body: both rewrite the body's label index.
+	// The supervoxel array changes here, so the scan oracle's model is taken from the server's own supervoxels and mapping;
+	// what is decided is that the index (sizes, supervoxel lists, sparse volumes ...) agrees with them, plus the
+	// acknowledged effects.
+	lmLiveVerdict := func(expect func(w *c11World, S []uint64, M map[uint64]uint64) []string) func(w *c11World) []string {
+		return func(w *c11World) (bad []string) {
+			vsrv.Quiesce()
+			S, r := lmGetRaw(w.root, "lm", [3]int{0, 0, 0}, [3]int{c08NX, c08NY, c08NZ}, true, 0)
+			if S == nil {
+				return []string{"read-error\tGET raw?supervoxels=true: " + r.String()}
+			}
+			svset := map[uint64]bool{}
+			for _, x := range S.v {
+				if x != 0 {
+					svset[x] = true
+				}
+			}
+			svs := sortedU64(svset)
+			mp, mr := lmMapping(w.root, "lm", svs)
+			if len(mp) != len(svs) {
+				return []string{"read-error\tGET mapping: " + mr.String()}
+			}
+			M := map[uint64]uint64{}
+			cw := &c08World{m: &c08Model{vers: []*c08Version{{sv: append([]uint64{}, S.v...), mapping: map[uint64]uint64{}, parent: -1}}}, uuids: []string{w.root}}
+			for i, x := range svs {
+				M[x] = mp[i]
+				if mp[i] != x && mp[i] != 0 {
+					cw.m.vers[0].mapping[x] = mp[i]
+				}
+			}
+			bad = append(bad, expect(w, S.v, M)...)
+			cw.remember()
+			for _, l := range []uint64{1, 2, 3, 4, 5} { // bodies that may have lost all voxels must not answer as existing
+				cw.ever[l] = true
+			}
+			if vs := cw.check(); len(vs) > 0 {
+				var eps, msgs []string
+				for i, v := range vs {
+					eps = append(eps, strings.TrimPrefix(v.Key, "scan:"))
+					if i < 3 {
+						msgs = append(msgs, v.What)
+					}
+				}
+				bad = append(bad, fmt.Sprintf("index-inconsistent\tafter both requests were acknowledged the label index disagrees with the stored voxels + mapping in %v: %s", eps, strings.Join(msgs, " ; ")))
+			}
+			return
+		}
+	}
+	sc = append(sc, c11Scenario{name: "S4d:labelmap:split-supervoxel||cleave:same-body", quietGate: true, setup: func() (*c11World, error) {
+		w, err := lmWorld()
+		if err == nil {
+			lmMerge(w.root, "lm", 1, 4)
+			vsrv.Quiesce()
+			w.extra = map[string]interface{}{}
+		}
+		return w, err
+	},
+		bodies: func(w *c11World) []func() {
+			runs := c08Shape(&c08Version{sv: c08InitialVolume(false)}, 1, "half-in-block")
+			return []func(){func() {
+				var sp, rem uint64
+				sp, rem, w.resp[0] = lmSplitSV(w.root, "lm", 1, runs)
+				w.extra["split"], w.extra["remain"] = sp, rem
+			}, func() {
+				var l uint64
+				l, w.resp[1] = lmCleave(w.root, "lm", 1, 4)
+				w.extra["cleaved"] = l
+			}}
+		},
+		verdict: lmLiveVerdict(func(w *c11World, S []uint64, M map[uint64]uint64) (bad []string) {
+			if acked(w.resp[1]) {
+				if l, _ := w.extra["cleaved"].(uint64); M[4] != l {
+					bad = append(bad, fmt.Sprintf("cleave-lost\tcleave of supervoxel 4 acknowledged (new body %d) but it maps to %d", l, M[4]))
+				}
+			}
+			if acked(w.resp[0]) {
+				sp, _ := w.extra["split"].(uint64)
+				rem, _ := w.extra["remain"].(uint64)
+				has := map[uint64]bool{}
+				for _, x := range S {
+					has[x] = true
+				}
+				if has[1] || !has[sp] || !has[rem] || M[sp] != 1 || M[rem] != 1 {
+					bad = append(bad, fmt.Sprintf("split-lost\tsplit of supervoxel 1 acknowledged (split %d, remainder %d): supervoxel 1 still stored %v, split stored %v -> body %d, remainder stored %v -> body %d", sp, rem, has[1], has[sp], M[sp], has[rem], M[rem]))
+				}
 			}
 			return
 		})})
